@@ -134,7 +134,12 @@ class PixCoord:
         `np.testing.assert_allclose` with its default tolerance values.
         """
         if isinstance(other, self.__class__):
-            return np.allclose([self.x, self.y], [other.x, other.y])
+            try:
+                return np.allclose([self.x, self.y], [other.x, other.y])
+            except ValueError:
+                # coordinate arrays whose shapes cannot be broadcast
+                # together are not equal
+                return False
         return False
 
     def to_sky(self, wcs, origin=_DEFAULT_WCS_ORIGIN, mode=_DEFAULT_WCS_MODE):
